@@ -12,6 +12,8 @@ import Generated.C14Input
 import Generated.C14Wrappers
 import Proofs.Lemmas.NumGuard
 import Generated.C14Numbers
+import Proofs.Lemmas.ReaderOrder
+import Generated.C14Readers
 /-!
 # C14 — encoders are faithful and decoders total
 
@@ -651,6 +653,98 @@ theorem C14_json_number_guard_is_model :
     (Generated.C14Numbers.floatToInt.filter (fun s => s.lo != .none || s.hi != .none)).map (·.shape) = [pinned.shape] := by obligation "C14_json_number_guard_is_model: the range guard of convertJsonNumber (operators, constants as float64, integrality test) is no longer the one Model.NumGuard.pinned embodies"
 
 end Numbers
+
+/-! ### round 7: the order of the readers of one input (exact reader vs. compatibility branch)
+
+`unserialize` has two readers of a text that starts with `s:`: the exact recursive-descent reader, and a compatibility
+branch that looks between the first and the last double quote for the legacy wrappers `__origami_a:<json>` /
+`__origami_o:<json>`. `serialize` writes a string verbatim, so the wrapper grammar is embedded in the value space of the
+exact format: the serialization of the *string* `__origami_a:[]` is, byte for byte, a legacy wrapper. Which reader is
+asked first decides whether `unserialize ∘ serialize` is the identity. `Model.ReaderOrder.decode` is "readers tried in
+order"; the statements below are about every list of readers, every legacy reader, every value. -/
+section Readers
+open Model.ReaderOrder Proofs.ReaderOrder
+
+/-- **Precedence, generic** (any text type, any answer type, any readers): if the exact reader `r1` reads every encoder
+output back (`r1 (enc v) = some (ok v)`), then the decoder that tries `pre`, then `r1`, then `post` inverts the encoder
+on every value **iff** the readers placed before `r1` are, on every encoder output, silent or already give the right
+answer. In particular (`pre = []`) nothing placed AFTER the exact reader can break the round trip, and a reader placed
+BEFORE it breaks it exactly on the values whose encoding it claims. -/
+theorem C14_reader_precedence {T R V : Type} (enc : V → T) (ok : V → R) (r1 : T → Option R)
+    (pre post : List (T → Option R)) (d : R) (h1 : ∀ v, r1 (enc v) = some (ok v)) :
+    (∀ v, decode (pre ++ r1 :: post) d (enc v) = ok v) ↔ ∀ v, decode pre (ok v) (enc v) = ok v := by
+  constructor
+  · intro h v
+    have := h v
+    rwa [decode_append, decode_cons_some _ _ _ _ _ (h1 v)] at this
+  · intro h v
+    rw [decode_append, decode_cons_some _ _ _ _ _ (h1 v)]
+    exact h v
+
+example : decode [fun (n : Nat) => if n = 3 then some 0 else none, fun n => some (n + 1)] 9 3 = 0 ∧
+    decode [fun (n : Nat) => if n = 3 then some 0 else none, fun n => some (n + 1)] 9 4 = 5 := by decide
+
+/-- **the model of `Call` is its three readers in the pinned order**: empty test, gated exact reader, compatibility
+branch — so the round-trip theorems about `unserializeT` are theorems about this order. -/
+theorem C14_unserialize_is_ordered_readers (raw : Model.Ser.Bytes) :
+    unserializeT raw = decode [emptyR, exactR, legacyR] .false raw := unserializeT_is_decode raw
+
+/-- **unserialize inverts serialize whatever follows the exact reader**: for every list of reader rows that satisfies
+the order obligation `orderOK` (first row = the exact reader behind the model's gate), for EVERY interpretation `sn` of
+the other rows (any legacy branch, any JSON reader, final or falling through) and every value of the model, the
+decoder built from the rows reads `serialize v` back as the same PHP value. The compatibility branch is not modelled —
+it does not need to be: behind the exact reader it is never asked about a serializer output. -/
+theorem C14_unserialize_roundtrip_any_later_reader (rs : List ReaderStep) (hok : orderOK rs = true)
+    (sn : ReaderStep → Model.Ser.Bytes → Option Model.Ser.Out) (v : PV) (hs : Sized v) (hd : Distinct v) :
+    ∃ bs w, ser v = some bs ∧ decode (emptyR :: rs.map (denote sn)) .false bs = .value w ∧ sem w = sem v := by
+  obtain ⟨bs, w, hb, hu, hw⟩ := C14_serialize_roundtrip v hs hd
+  obtain ⟨rest, hr⟩ := map_denote_of_ok sn rs hok
+  exact ⟨bs, w, hb, by rw [hr]; exact exact_first_decides rest bs w hu, hw⟩
+
+example : orderOK pinned = true := by decide
+
+/-- **Obligation**: the reader attempts of `UnserializeFunction.Call`, in source order, are the exact reader first and
+only literal-sniffing branches after it; they are the rows the model embodies (`Model.ReaderOrder.pinned`: gate, the
+two wrapper literals, the compatibility branch final); no statement of `Call` reads the text outside these attempts. -/
+theorem C14_unserialize_reader_order :
+    orderOK Generated.C14Readers.readers = true ∧
+    Generated.C14Readers.readers = pinned ∧
+    Generated.C14Readers.shapeNotes = [] := by obligation "C14_unserialize_reader_order: the order / kind of the reader attempts in UnserializeFunction.Call changed — a literal-sniffing compatibility branch (legacy wrapper, marker, prefix heuristics) now runs before the exact reader, or a reader was added — see Generated/C14Readers.lean; a value whose serialization carries the marker no longer round-trips"
+
+/-- the in-band literals the decoders compare their input with (type tags, float words, the two legacy wrappers, the
+JSON words) -/
+def knownMarkers : List String := [
+  "std/php/unserialize.go: -INF", "std/php/unserialize.go: INF", "std/php/unserialize.go: N;", "std/php/unserialize.go: NAN",
+  "std/php/unserialize.go: __origami_a:", "std/php/unserialize.go: __origami_o:", "std/php/unserialize.go: a:",
+  "std/php/unserialize.go: b:", "std/php/unserialize.go: d:", "std/php/unserialize.go: i:", "std/php/unserialize.go: s:",
+  "std/serializer/json/json_serializer.go: false", "std/serializer/json/json_serializer.go: null",
+  "std/serializer/json/json_serializer.go: true"]
+
+/-- **Obligation**: no decoder compares its input with a literal (prefix, magic word, wrapper marker) beyond the known
+ones — a new in-band marker is a second grammar inside the value space and needs its own precedence argument. -/
+theorem C14_decoder_markers_known :
+    Generated.C14Readers.markers.all (fun m => knownMarkers.contains m) = true := by obligation "C14_decoder_markers_known: a decoder compares its input with a string literal that is not in the known list (a new in-band marker / sniffing branch) — see Generated/C14Readers.lean"
+
+/-- **Negation witness (the seeded order)**: with the compatibility branch asked before the exact reader, the string
+`__origami_a:[]` — serialized as `s:14:"__origami_a:[]";` — is claimed by the wrapper branch, while the pinned order
+returns the string; so the sniff-first decoder does not invert `serialize` on strings, and the rows of that order fail
+`orderOK`. -/
+theorem C14_unserialize_sniff_first_hijacks :
+    let s : Model.Ser.Bytes := [95, 95, 111, 114, 105, 103, 97, 109, 105, 95, 97, 58, 91, 93]
+    ser (.str s) = some (serStr s) ∧
+    unserializeT (serStr s) = .value (.str s) ∧
+    decode [emptyR, sniffFirstR, exactR] .false (serStr s) = .legacy ∧
+    ¬ (∀ t : Model.Ser.Bytes, decode [emptyR, sniffFirstR, exactR] .false (serStr t) = .value (.str t)) ∧
+    orderOK pinned.reverse = false := by
+  refine ⟨rfl, rfl, rfl, ?_, by decide⟩
+  intro h
+  have := h [95, 95, 111, 114, 105, 103, 97, 109, 105, 95, 97, 58, 91, 93]
+  exact absurd this (by
+    have e : decode [emptyR, sniffFirstR, exactR] Model.Ser.Out.false
+        (serStr [95, 95, 111, 114, 105, 103, 97, 109, 105, 95, 97, 58, 91, 93]) = Model.Ser.Out.legacy := rfl
+    rw [e]; simp)
+
+end Readers
 
 end Tie
 
